@@ -223,6 +223,10 @@ type clusterOpts struct {
 	KeepWAL     int
 	UseRocksWAL bool
 	WALSegment  int64 // wal.SegmentSizeBytes of the node processes; 0 = production default (64 MiB)
+	// Stall, if set, is the VERIF_STALL value (internal/verifhook: "<point>:<k>:<ms>") of node StallNode:
+	// the goroutine reaching that point for the k-th time is descheduled for ms - a schedule, nothing dies
+	Stall     string `json:",omitempty"`
+	StallNode int    `json:",omitempty"`
 }
 
 type cluster struct {
@@ -328,6 +332,9 @@ func (c *cluster) start(i int) error {
 	cmd := exec.Command(c.bin, "-config", n.conf)
 	cmd.Stdout, cmd.Stderr = logf, logf
 	cmd.Dir = c.root
+	if c.opts.Stall != "" && i == c.opts.StallNode {
+		cmd.Env = append(os.Environ(), "VERIF_STALL="+c.opts.Stall)
+	}
 	cmd.SysProcAttr = &syscall.SysProcAttr{Pdeathsig: syscall.SIGKILL}
 	var serr error
 	spawn(func() { serr = cmd.Start() })
